@@ -8,11 +8,12 @@ Record Ops (T : Type) := mkOps {
   o_zero : T; o_one : T;
   o_add : T -> T -> T; o_sub : T -> T -> T; o_mul : T -> T -> T; o_div : T -> T -> T;
   o_ltb : T -> T -> bool; o_leb : T -> T -> bool; o_eqb : T -> T -> bool;
-  o_abs : T -> T; o_ofnat : nat -> T; o_half : T
+  o_abs : T -> T; o_ofnat : nat -> T; o_half : T;
+  o_prev : T -> T   (* the next representable value towards zero, for positive arguments (identity over Q) *)
 }.
 Arguments o_zero {T}. Arguments o_one {T}. Arguments o_add {T}. Arguments o_sub {T}.
 Arguments o_mul {T}. Arguments o_div {T}. Arguments o_ltb {T}. Arguments o_leb {T}.
-Arguments o_eqb {T}. Arguments o_abs {T}. Arguments o_ofnat {T}. Arguments o_half {T}.
+Arguments o_eqb {T}. Arguments o_abs {T}. Arguments o_ofnat {T}. Arguments o_half {T}. Arguments o_prev {T}.
 
 Definition o_gtb {T} (o : Ops T) (a b : T) : bool := o_ltb o b a.
 Definition o_geb {T} (o : Ops T) (a b : T) : bool := o_leb o b a.
@@ -23,7 +24,7 @@ Definition QOps : Ops Q := {|
   o_zero := 0%Q; o_one := 1%Q;
   o_add := Qplus; o_sub := Qminus; o_mul := Qmult; o_div := Qdiv;
   o_ltb := Qltb; o_leb := Qle_bool; o_eqb := Qeq_bool;
-  o_abs := Qabs; o_ofnat := fun n => inject_Z (Z.of_nat n); o_half := (1#2)%Q |}.
+  o_abs := Qabs; o_ofnat := fun n => inject_Z (Z.of_nat n); o_half := (1#2)%Q; o_prev := fun x => x |}.
 
 Lemma Qltb_lt a b : Qltb a b = true <-> (a < b)%Q.
 Proof.
@@ -44,7 +45,7 @@ Definition FOps : Ops float := {|
   o_ltb := PrimFloat.ltb; o_leb := PrimFloat.leb; o_eqb := PrimFloat.eqb;
   o_abs := PrimFloat.abs;
   o_ofnat := fun n => PrimFloat.of_uint63 (Uint63.of_Z (Z.of_nat n));
-  o_half := 0.5%float |}.
+  o_half := 0.5%float; o_prev := PrimFloat.next_down |}.
 
 (** Bitwise sameness of two doubles (distinguishes +0/-0, identifies all NaNs). *)
 Definition fsame (a b : float) : bool :=
